@@ -260,8 +260,30 @@ def check_C11(tier, seed):
                    extra_cov={"operation_sequences_enumerated_by_tlc": len(seqs), "generator_states": gst})
 
 
+def check_C02(tier, seed):
+    r = random.Random(seed * 7919 + 2)
+    quick = tier == "quick"
+    vecs, gst = V.gen("SeqGen.tla", "SeqGen_fates6.cfg" if quick else "SeqGen_fates8.cfg", "C02")
+    drops, gst2 = V.gen("SeqGen.tla", "SeqGen_drop10.cfg" if quick else "SeqGen_drop12.cfg", "C02d")
+    n_vec = 900 if quick else 65536
+    n_drop = 600 if quick else 4096
+    scripts = [scen.progress_script(r, i, fate_vec=v) for i, v in enumerate(sample(vecs, n_vec, r))]
+    for d in sample(drops, n_drop, r):
+        half = len(d) // 2
+        scripts.append(scen.progress_script(r, len(scripts), drops_only=([x == "x" for x in d[:half]], [x == "x" for x in d[half:]])))
+    mcs = [("Progress.tla", "MC_Progress.cfg" if quick else "MC_Progress3.cfg")]
+    return generic("C02", tier, seed, mcs, scripts,
+                   [("progress", "ProgressTrace.tla", "ProgressTrace.cfg")],
+                   ["fair loss is made concrete as: faults only on a TLC-enumerated prefix of the datagrams of each direction, loss-free and constant delay afterwards",
+                    "bounded liveness on the code: each run gets 400 s of virtual time (idle timeouts disabled); unbounded liveness is established on Progress.tla under weak fairness",
+                    "applications are event driven (act only on reported events); stream limits of zero are raised by a scripted call after 300 ms"],
+                   extra_cov={"fate_vectors_enumerated_by_tlc": len(vecs), "drop_subsets_enumerated_by_tlc": len(drops),
+                              "generator_states": gst})
+
+
 REGISTRY = {
     "C01": check_C01,
+    "C02": check_C02,
     "C11": check_C11,
     "C12": check_C12,
     "C05": check_C05,
@@ -312,4 +334,8 @@ def replay_C11(scripts):
     return generic("C11", "quick", 0, [], scripts, [("streamsm", "StreamSMTrace.tla", "StreamSMTrace.cfg")], [], shards=1)
 
 
-REPLAY = {"C11": replay_C11, "C12": replay_C12, "C05": replay_C05, "C04": replay_C04, "C08": replay_C08, "C01": replay_C01, "C07": replay_C07}
+def replay_C02(scripts):
+    return generic("C02", "quick", 0, [], scripts, [("progress", "ProgressTrace.tla", "ProgressTrace.cfg")], [], shards=1)
+
+
+REPLAY = {"C02": replay_C02, "C11": replay_C11, "C12": replay_C12, "C05": replay_C05, "C04": replay_C04, "C08": replay_C08, "C01": replay_C01, "C07": replay_C07}
